@@ -946,6 +946,28 @@ def excluded_points(ctx, req, impl, cases):
     ctx.count("excluded point: no-default parameter assigned on one object of its class")
 
 
+def full_core_round(ctx, rng, req, impl, cases):
+    """third-core -> full-core conversion of the edited reference reactor, then the round trip"""
+    from armi.reactor.converters import geometryConverters
+
+    with silence():
+        try:
+            o, r = load_fixture("reference")
+            ops = []
+            mutate(rng, o, r, 150, ops)
+            geometryConverters.ThirdCoreHexToFullCoreChanger(o.cs).convert(r)
+            ops.append(["fullCore"])
+            refresh_derived(r)
+            fn, r2, nd = roundtrip_checks(ctx, "reference", o, r, ops, "fullcore", deep=True)
+            layout_correspondence(ctx, "reference", r, fn, r2, req, impl, cases)
+            ctx.case(("reference", "fullcore", len(ops)), nontrivial=True)
+            ctx.count("reference: third-core -> full-core conversion round trip")
+        except WriteRejected as e:
+            ctx.count(f"reference full core: state refused at write time ({e})")
+        except LoadFailed:
+            pass
+
+
 # --------------------------------------------------------------------------- run
 def plan(ctx):
     if ctx.thorough:
@@ -995,18 +1017,7 @@ def run(ctx):
                 ctx.count(f"{fixture}: round trips")
                 ctx.count("edits applied: " + fixture, len(ops))
         if ctx.thorough:
-            with silence(), contextlib.suppress(LoadFailed, WriteRejected):
-                from armi.reactor.converters import geometryConverters
-                o, r = load_fixture("reference")
-                ops = []
-                mutate(rng, o, r, 150, ops)
-                geometryConverters.ThirdCoreHexToFullCoreChanger(o.cs).convert(r)
-                ops.append(["fullCore"])
-                refresh_derived(r)
-                fn, r2, nd = roundtrip_checks(ctx, "reference", o, r, ops, "fullcore", deep=True)
-                layout_correspondence(ctx, "reference", r, fn, r2, req, impl, cases)
-                ctx.case(("reference", "fullcore", len(ops)), nontrivial=True)
-                ctx.count("reference: third-core -> full-core conversion round trip")
+            full_core_round(ctx, rng, req, impl, cases)
         excluded_points(ctx, req, impl, cases)
         with silence():
             synthetic_layouts(ctx, req, impl, cases)
@@ -1029,7 +1040,8 @@ def run(ctx):
 def search(ctx, disagreements, broken):
     """layout model disagreement: evaluate the whole-stack oracle on every fixture the disagreement names"""
     out = []
-    fixtures = sorted({d.case.get("fixture") for d in disagreements if isinstance(d.case, dict)} - {None}) or ["smallest", "c5g7"]
+    fixtures = sorted(f for f in {d.case.get("fixture") for d in disagreements if isinstance(d.case, dict)} if f in FIXTURES) \
+        or ["smallest", "c5g7", "godiva"]
     known = {f["key"] for f in common.load_findings()["finding"] if f["property"] == "C04"}
     sub = type(ctx)(ctx.prop, "quick", ctx.seed)
     with common.scratch_dir():
